@@ -565,6 +565,8 @@ def _connect(c, loop, g, wr, tap, mode, direct, indirect, addr, typ, decoy, canc
     c.check(not died and not loop.errors and not tap.swallowed, 'no_task_died', sig=[mode] + what,
             info=repr((died[:2], loop.errors[:1], tap.swallowed[:1])))
 
+    if any(a.outcome == 'overflow' for a in wr.attempts[1:]):
+        c.reach('port_beyond_65535_rejected')      # asyncio refused the arguments with OverflowError (not an OSError)
     # ---- what went over the wire -----------------------------------------------------------------------------------
     c.check(len(wr.attempts) <= 2 and len(S['ctp']) <= 1, 'one_attempt_of_each_kind', sig=sig,
             info={'direct': len(wr.attempts) - 1, 'connect_to_peer': len(S['ctp'])})
@@ -653,6 +655,8 @@ def _connect_back(c, loop, g, wr, tap, outcome, shape):
     harness_errors(world, tap)
     c.reach('connect_back_end')
     attempts = wr.attempts[1:]
+    if any(a.outcome == 'overflow' for a in attempts):
+        c.reach('port_beyond_65535_rejected')
     if not c.check(len(attempts) == 1, 'connect_back_attempted_once', sig=sig, info=len(attempts)):
         return
     a = attempts[0]
@@ -850,7 +854,8 @@ def jobs(tier):
     job('select_port', h_select_port, ['selected'])
     for o in BACK:
         for shape in ('full', 'short'):
-            job('connect_back', h_connect_back, ['connect_back_end', 'reported'] + (['pierced'] if o in ('ok', 'ok_slow') else []),
+            job('connect_back', h_connect_back, ['connect_back_end', 'reported', 'port_beyond_65535_rejected'] + (
+                ['pierced'] if o in ('ok', 'ok_slow') else []),
                 outcome=o, shape=shape)
     directs = QD + ([] if q else ['tie', 'tie_refused', 'refused_slow', 'init_hang'])
     indirects = QI + ([] if q else ['send_hangs', 'stranger_then_pierce', 'pierce_then_cannot', 'pierce_at_timeout', 'pierce_after_timeout'])
@@ -879,7 +884,8 @@ def jobs(tier):
         for d in sd:
             for i in si:
                 for decoy in ([bool(n % 2)] if q else [False, True]):
-                    job('connect', h_connect, [r for r in _requires(mode, d, i, 'server') if r != 'direct_attempted' or i != 'send_fails' or mode != 'race'],
+                    job('connect', h_connect, [r for r in _requires(mode, d, i, 'server') if r != 'direct_attempted' or i != 'send_fails' or mode != 'race']
+                        + ([] if (mode, i) == ('race', 'send_fails') else ['port_beyond_65535_rejected']),
                         mode=mode, direct=d, indirect=i, addr='server', typ=typs[n % 3], decoy=decoy, **few(d))
                 n += 1
     # (3) cancellation of the request: at every instant at which the loop goes idle ...
@@ -912,6 +918,34 @@ def prelude(tier):
         raise symex.HarnessError(f'scenario times are not ordered any more (time-outs of the code changed?): {order}')
     notes.append(f'scenario times derived from PEER_CONNECT_TIMEOUT={CONNECT_TIMEOUT} / PEER_INDIRECT_CONNECT_TIMEOUT={INDIRECT_TIMEOUT}: '
                  f'address {GPA_REPLY}, direct {D_FAST}/{D_SLOW}, indirect {I_FAST}/{I_SLOW}')
+    # ---- the fake open_connection treats its arguments like the real one ---------------------------------------------------------
+    async def real(port):
+        try:
+            _, w = await asyncio.wait_for(asyncio.open_connection('127.0.0.1', port), 5)
+            w.close()
+            return 'connected'
+        except OSError:
+            return 'OSError'
+        except Exception as e:  # noqa
+            return type(e).__name__
+
+    async def fake(port):
+        lp = asyncio.get_running_loop()
+        wr_ = c11env.Wire(False, lp)
+        wr_.script = lambda a: ('refused', 0)
+        try:
+            await wr_.open_connection('127.0.0.1', port)
+            return 'connected'
+        except OSError:
+            return 'OSError'
+        except Exception as e:  # noqa
+            return type(e).__name__
+    for port in (65536, 67770, 2 ** 32 - 1, 0, 1, 65535):
+        r, f = asyncio.run(real(port)), asyncio.run(fake(port))
+        if f != r and not (f == 'OSError' and r == 'connected'):
+            raise symex.HarnessError(f'fake open_connection disagrees with asyncio.open_connection on port {port}: fake={f} real={r}')
+    notes.append('fake open_connection == real asyncio.open_connection on ports 65536, 67770, 2^32-1 (OverflowError, not an OSError) and 0, 1, '
+                 '65535 (OSError when nothing listens)')
     # ---- reference encoders == the real codec on concrete values ---------------------------------------------------------------
     import aioslsk.protocol.messages as M
     cases = [
